@@ -294,6 +294,8 @@ impl TrackShared {
 	}
 
 	pub fn state(&self) -> TrackPlaybackState {
+		#[cfg(kira_verif)]
+		crate::verif::yield_point("track.shared.state.load");
 		match self.state.load(Ordering::SeqCst) {
 			0 => TrackPlaybackState::Playing,
 			1 => TrackPlaybackState::Pausing,
@@ -305,15 +307,21 @@ impl TrackShared {
 	}
 
 	pub fn set_state(&self, playback_state: PlaybackState) {
+		#[cfg(kira_verif)]
+		crate::verif::yield_point("track.shared.state.store");
 		self.state.store(playback_state as u8, Ordering::SeqCst);
 	}
 
 	#[must_use]
 	pub fn is_marked_for_removal(&self) -> bool {
+		#[cfg(kira_verif)]
+		crate::verif::yield_point("track.shared.removed.load");
 		self.removed.load(Ordering::SeqCst)
 	}
 
 	pub fn mark_for_removal(&self) {
+		#[cfg(kira_verif)]
+		crate::verif::yield_point("track.shared.removed.store");
 		self.removed.store(true, Ordering::SeqCst);
 	}
 }
